@@ -2,7 +2,7 @@
 from props.util import *
 
 TRUSTED = BASE_TRUSTED + [
-    "ristretto255: group laws are the hypothesis `Laws B mem` of the generic theorems (curve25519-dalek is not modelled); its round trips are exercised on the implementation only",
+    "ristretto255: C01_ristretto_roundtrip is proved about the executable curve model of Model/Ristretto.v with no group-law hypothesis (Proofs/RistrettoGroup.v, Base/Edwards.v); the model is tied to curve25519-dalek by correspondence on every ristretto case; RFC 9496 ENCODE/DECODE and the 30-byte plaintext embedding are executed and tied, not proved",
 ]
 RULE = ("exhaustive (sk, m, r) over the plaintext space of p=23 (quick) / 23,47,59 (thorough) on both multiplicative "
         "backends: encode, encrypt_with_randomness, decrypt, decode each compared with the Gallina model; scripted-RNG "
